@@ -76,12 +76,18 @@ class Run:
         self.prot, self.tr = net.make_sd(self.h.loop, ("10.0.8.1", 30490), timings=tm)
         self.insts = []
         self.ref_opts = []
+        import zlib
+        # the same ids get other options from scenario to scenario (an answer must carry the options configured now)
+        variant = zlib.crc32(repr((sorted(cfg.items(), key=str), insts, [(t, r, sorted(a.items(), key=str)) for t, r, a in script])).encode())
         for i, (sid, iid, maj, minor) in enumerate(insts):
-            o1 = H.IPv4EndpointOption(address=ipaddress.IPv4Address("10.0.8.1"), l4proto=H.L4Protocols.UDP, port=3100 + i)
-            o2 = H.SOMEIPSDLoadBalancingOption(priority=i, weight=7)
+            v = (variant >> (3 * i)) & 7
+            port = 3100 + i + 10 * (v & 3)
+            proto = (H.L4Protocols.UDP, H.L4Protocols.TCP)[v >> 2]
+            o1 = H.IPv4EndpointOption(address=ipaddress.IPv4Address("10.0.8.1"), l4proto=proto, port=port)
+            o2 = H.SOMEIPSDLoadBalancingOption(priority=i + (v & 3), weight=7)
             svc = C.Service(sid, iid, maj, minor, options_1=(o1,), options_2=(o2,), eventgroups=frozenset({1}))
             self.insts.append(S.ServiceInstance(svc, S.ServerServiceListener(), self.prot.announcer, tm))
-            self.ref_opts.append(([refwire.ep4("10.0.8.1", 3100 + i)], [refwire.opt_loadbal(i, 7)]))
+            self.ref_opts.append(([refwire.ep4("10.0.8.1", port, proto=int(proto))], [refwire.opt_loadbal(i + (v & 3), 7)]))
         self.script = script
         self.sess = net.PeerSession()
         self.raised = []
